@@ -91,7 +91,7 @@ where
     Ok(())
 }
 
-const LENS: &[usize] = &[0, 1, 2, 3, 4, 5, 6, 7, 8, 9, 10, 11, 12, 13, 14, 15, 16, 17, 31, 32, 33, 1023, 1024, 1025, 2047, 2048, 2049, 3000, 4096];
+const LENS: &[usize] = &[0, 1, 2, 3, 4, 5, 6, 7, 8, 9, 10, 11, 12, 13, 14, 15, 16, 17, 18, 23, 24, 31, 32, 33, 34, 48, 63, 64, 65, 100, 127, 128, 129, 200, 255, 256, 257, 300, 400, 511, 512, 513, 600, 768, 1000, 1023, 1024, 1025, 1500, 2000, 2047, 2048, 2049, 2500, 3000, 4095, 4096, 4097, 5000, 6000, 8191, 8192, 8193, 10000, 16384, 65536];
 
 pub fn exec(case: &Case, acc: &mut Acc) -> Result<(), String> {
     macro_rules! go {
@@ -103,13 +103,16 @@ pub fn exec(case: &Case, acc: &mut Acc) -> Result<(), String> {
         };
     }
     go!(0 => U0, 1 => U1, 2 => U2, 3 => U3, 4 => U4, 5 => U5, 6 => U6, 7 => U7, 8 => U8, 9 => U9, 10 => U10, 11 => U11, 12 => U12, 13 => U13,
-        14 => U14, 15 => U15, 16 => U16, 17 => U17, 31 => U31, 32 => U32, 33 => U33, 1023 => U1023, 1024 => U1024, 1025 => Add1<U1024>,
-        2047 => U2047, 2048 => U2048, 2049 => Add1<U2048>, 3000 => Prod<U1000, U3>, 4096 => U4096)?;
+        14 => U14, 15 => U15, 16 => U16, 17 => U17, 18 => U18, 23 => U23, 24 => U24, 31 => U31, 32 => U32, 33 => U33, 34 => U34, 48 => U48, 63 => U63, 64 => U64, 65 => U65,
+        100 => U100, 127 => U127, 128 => U128, 129 => U129, 200 => U200, 255 => U255, 256 => U256, 257 => U257, 300 => U300, 400 => U400, 511 => U511, 512 => U512,
+        513 => U513, 600 => U600, 768 => U768, 1000 => U1000, 1023 => U1023, 1024 => U1024, 1025 => Add1<U1024>, 1500 => Sum<U1000, U500>, 2000 => Prod<U1000, U2>,
+        2047 => U2047, 2048 => U2048, 2049 => Add1<U2048>, 2500 => Prod<U500, U5>, 3000 => Prod<U1000, U3>, 4095 => U4095, 4096 => U4096, 4097 => Add1<U4096>,
+        5000 => Prod<U1000, U5>, 6000 => Prod<U1000, U6>, 8191 => U8191, 8192 => U8192, 8193 => Add1<U8192>, 10000 => U10000, 16384 => U16384, 65536 => U65536)?;
     let n = case.n;
     let nonzero = n > 0;
     let odd = case.precision.map(|p| p % 2 == 1 && p < 2 * n).unwrap_or(false);
-    let across = case.precision.map(|p| n > 1024 && p > 2048 && p < 2 * n).unwrap_or(false);
-    let threshold = matches!(n, 15 | 16 | 17 | 1023 | 1024 | 1025);
+    let across = case.precision.map(|p| n > 256 && p > 512 && p < 2 * n).unwrap_or(false);
+    let threshold = matches!(n, 15 | 16 | 17 | 255 | 256 | 257 | 511 | 512 | 513 | 1023 | 1024 | 1025 | 4095 | 4096 | 4097);
     acc.count(nonzero && (odd || across || threshold), case);
     if odd {
         acc.class("odd_precision_below_2N");
@@ -133,9 +136,32 @@ fn grid() -> Vec<Case> {
             std::iter::once(None).chain((0..=2 * n + 2).map(Some)).collect()
         } else {
             let mut v = vec![None];
-            for p in [0, 1, 2, 3, 7, 2046, 2047, 2048, 2049, 2050, 2051, 4095, 4096, 4097, 4099, 2 * n - 3, 2 * n - 2, 2 * n - 1, 2 * n, 2 * n + 1, 65535] {
+            for p in [0, 1, 2, 3, 7, 2 * n - 3, 2 * n - 2, 2 * n - 1, 2 * n, 2 * n + 1, 65535] {
                 v.push(Some(p));
             }
+            // every power-of-two digit boundary an implementation could chunk at, and its neighbours
+            let mut b = 32usize;
+            while b <= 2 * n && b <= 65536 {
+                for p in [b - 1, b, b + 1, b + 3] {
+                    if p <= 65535 {
+                        v.push(Some(p));
+                    }
+                }
+                b *= 2;
+            }
+            // odd multiples of 2048 digits (the documented chunk size) up to the end
+            let mut k = 3usize;
+            while k * 2048 < 2 * n && k < 64 {
+                for p in [k * 2048 - 1, k * 2048 + 1] {
+                    if p <= 65535 {
+                        v.push(Some(p));
+                    }
+                }
+                k += 2;
+            }
+            v.retain(|p| p.map(|p| p <= 65535).unwrap_or(true));
+            v.sort();
+            v.dedup();
             v
         };
         for p in precisions {
@@ -161,7 +187,7 @@ fn random_strategy() -> impl Strategy<Value = Case> {
             5 => Some((2 * n).saturating_sub(ps as usize % 5)),
             _ => Some(((ps as usize) * (2 * n + 3)) >> 32),
         };
-        Case { n, pattern: Pattern::Random(seed), precision, upper }
+        Case { n, pattern: Pattern::Random(seed), precision: precision.map(|p| p.min(65535)), upper }
     })
 }
 
@@ -194,7 +220,7 @@ pub fn main() {
         Report {
             prop: PROP,
             level: "exploration",
-            rule: "case = (N in {0..=17,31,32,33,1023,1024,1025,2047,2048,2049,3000,4096}, byte pattern, precision, {:x} or {:X}); grid: every precision 0..=2N+2 (and none) for N <= 33, 21 boundary precisions (around 0, 2048, 4096, 2N, and 65535 - the largest precision core::fmt accepts) beyond, with ramp (all 256 byte values), per-chunk-distinct, nibble-asymmetric and seeded random data; plus proptest-random (data, precision) cases. The check is built and run twice: default features and faster-hex. \
+            rule: "case = (N in 66 lengths from 0 to 65536 (0..=18, 23, 24, 31..34, 48, 63..65, 100, 127..129, 200, 255..257, 300, 400, 511..513, 600, 768, 1000, 1023..1025, 1500, 2000, 2047..2049, 2500, 3000, 4095..4097, 5000, 6000, 8191..8193, 10000, 16384, 65536), byte pattern, precision, {:x} or {:X}); grid: every precision 0..=2N+2 (and none) for N <= 33, boundary precisions beyond (0..3, 7, every power-of-two digit count from 32 with its neighbours, odd multiples of 2048, 2N-3..2N+1, and 65535 - the largest precision core::fmt accepts), with ramp (all 256 byte values), per-chunk-distinct, nibble-asymmetric and seeded random data; plus proptest-random (data, precision) cases. The check is built and run twice: default features and faster-hex. \
                    Oracle: reference string built per byte with {:02x} / {:02X}, cut to min(p, 2N) characters. Width, fill and the # flag are not asserted. \
                    non-trivial = N > 0 and (odd precision below 2N, or precision across a 2048-digit chunk boundary, or N at a strategy threshold 15/16/17/1023/1024/1025); distinct = distinct case tuples",
             exhaustive: false,
